@@ -554,3 +554,81 @@ impl DhtHandler {
 }
 
 // ----------------------------------------------------------------------------//
+
+/// Verification hooks: drive the handler one event at a time (the harness plays `run_once`) and
+/// look at its state. Nothing here is compiled into a normal build.
+#[cfg(btdht_verif)]
+impl DhtHandler {
+    pub(crate) fn verif_table(&self) -> Arc<Mutex<RoutingTable>> {
+        self.routing_table.clone()
+    }
+
+    pub(crate) async fn verif_handle_incoming(
+        &mut self,
+        message: Message,
+        addr: SocketAddr,
+    ) -> Result<(), String> {
+        self.handle_incoming(message, addr)
+            .await
+            .map_err(|error| error.to_string())
+    }
+
+    /// One poll-to-completion of `Socket::recv` followed by `handle_incoming`, exactly as the
+    /// socket branch of `run_once` does it.
+    pub(crate) async fn verif_recv_and_handle(&mut self) -> Result<(Message, SocketAddr), String> {
+        let (message, addr) = self.socket.recv().await.map_err(|e| e.to_string())?;
+        let copy = message.clone();
+        self.handle_incoming(message, addr)
+            .await
+            .map_err(|error| error.to_string())?;
+        Ok((copy, addr))
+    }
+
+    pub(crate) async fn verif_start_lookup(
+        &mut self,
+        info_hash: InfoHash,
+        announce: bool,
+        tx: mpsc::UnboundedSender<SocketAddr>,
+    ) {
+        self.handle_start_lookup(StartLookup {
+            info_hash,
+            announce,
+            tx,
+        })
+        .await
+    }
+
+    /// Wait for the next timer entry (as the timer branch of `run_once` does) and handle it.
+    pub(crate) async fn verif_fire_timer(&mut self) -> Option<ScheduledTaskCheck> {
+        if self.timer.is_empty() {
+            return None;
+        }
+        let token = self.timer.next().await?;
+        self.handle_timeout(token).await;
+        Some(token)
+    }
+
+    pub(crate) fn verif_timer_entries(&self) -> Vec<(tokio::time::Instant, u64, ScheduledTaskCheck)> {
+        self.timer.verif_entries()
+    }
+
+    pub(crate) fn verif_lookup_ids(&self) -> Vec<ActionID> {
+        self.lookups.keys().copied().collect()
+    }
+
+    pub(crate) fn verif_refresh_action_id(&self) -> ActionID {
+        self.refresh.action_id()
+    }
+
+    pub(crate) async fn verif_refresh(&mut self) {
+        self.handle_check_table_refresh().await
+    }
+
+    pub(crate) fn verif_token_store(&self) -> TokenStore {
+        self.token_store
+    }
+
+    pub(crate) fn verif_store_mut(&mut self) -> &mut AnnounceStorage {
+        &mut self.active_stores
+    }
+}
